@@ -744,9 +744,10 @@ fn no_str_contract(span: Span, src: &'static str) -> miette::Report {
 macro_rules! pre_attrs {
     ($(#[$m:meta])* fn $name:ident() $body:block) => {
         #[kani::proof]
-        #[kani::unwind(8)]
+        #[kani::unwind(12)]
         #[kani::stub(alloc::fmt::format, stubs::fmt_format)]
         #[kani::stub(Cursor::advance_real, Cursor::advance_real_from_queue)]
+        #[kani::stub(core::slice::memchr::memchr, stubs::memchr_simple)]
         #[kani::stub(crate::error::preproc_bad_lit, bad_lit_contract)]
         #[kani::stub(crate::error::preproc_no_str, no_str_contract)]
         $(#[$m])*
